@@ -149,7 +149,7 @@ def daysweep(v, tag, ranges, groups, wanted, shard_records, extra=None, jobs=Non
 def sweep_ranges(v, what):
     """Day windows (DESIGN section 7): quick = boundary-rich years (+ the edges of
     every year for cheap groups); thorough = every day."""
-    if v.tier == "thorough":
+    if v.tier == "thorough" or what == "all":
         return vlib.ALL_DAYS
     if what == "full":
         return vlib.year_ranges(vlib.QUICK_YEARS)
@@ -514,6 +514,18 @@ def c13(v):
         plan.append(("DT.try_from_usecs", [a]))
         if x > -mx:
             plan.append(("DT.ord", [a, pools.us3(x - 1)]))
+    # constructor grids around the symmetric range limits
+    for d_ in (0, 1, 99999999, 100000000, 100000001, pools.U32_MAX):
+        for h in (0, 1, 23, 24):
+            for mi in (0, 1, 59, 60):
+                for sc in (0, 1, 59, 60):
+                    for us in (0, 1, 999999, 1000000):
+                        plan.append(("DT.try_from_dhms", [d_, h, mi, sc, us]))
+                        plan.append(("DT.is_valid", [d_, h, mi, sc, us]))
+    for y in (0, 1, 177999999, 178000000, 178000001, 2147483647, 2147483648, pools.U32_MAX):
+        for m in (0, 1, 11, 12, 13, pools.U32_MAX):
+            plan.append(("YM.try_from_ym", [y, m]))
+            plan.append(("YM.is_valid_ym", [y, m]))
     plan += pools.plan_for(["YM.try_from_ym", "YM.is_valid_ym", "DT.try_from_dhms", "DT.is_valid", "DT.try_from_usecs",
                             "YM.try_from_months", "YM.ord", "DT.ord", "YM.months", "DT.usecs"], P, cap=4000)
     eventtrace(v, "intervals", plan, {"result", "range", "panic"}, shard=40000)
@@ -822,6 +834,12 @@ def c04(v):
     for x in P.dt:
         plan.append(("DT.format", [x, list("DD HH24:MI:SS.FF6")]))
         plan.append(("DT.format", [x, list("DD HH24:MI:SS.FF9 FF1 FF")]))
+    # day counts of an interval: every count up to 1100 and around the powers of ten (widths 1..9)
+    for dcount in list(range(0, 1101)) + [10**p + q for p in range(4, 9) for q in (-1, 0, 1)]:
+        if dcount <= 100000000:
+            sgn = -1 if dcount % 3 == 1 else 1
+            us_ = sgn * (dcount * 86400 * 10**6 + (0 if dcount == 100000000 else (dcount * 7919) % (86400 * 10**6)))
+            plan.append(("DT.format", [pools.us3(us_), list("DD HH24:MI:SS.FF6" if dcount % 2 else "HH24 DD")]))
     for k in P.ym:
         plan.append(("YM.format", [k, list("YYYY-MM")]))
         plan.append(("YM.format", [k, list("Y MM YY;YYY")]))
@@ -838,6 +856,362 @@ def c04(v):
             for val in pool[:6]:
                 plan.append((ty + ".format", [val, list(tok)]))
     eventtrace(v, "format", plan, {"result", "panic"}, shard=6000)
+
+
+# --------------------------------------------------------------------------
+# parsing: SpellGen (spec -> impl)
+# --------------------------------------------------------------------------
+DATE_PICS_FULL = ["YYYY-MM-DD", "DD/MM/YYYY", "YYYYMMDD", "Dy, DD Mon YYYY", "DAY DD MONTH YYYY", "YYYY-DDD", "DDD/YYYY",
+                  "YYYY-MM-DD DDD", "D YYYY.MM.DD", "MON DD, YYYY", "dd\\mm\\yyyy", "YYYY;MM;DD Day", "Month DD YYYY",
+                  "yyyy mon dd dy", "DD-MM-YYYY D DDD", "YYYY MM DDD", "DD DDD YYYY"]
+DATE_PICS_PART = ["", " ", "DD", "MM", "MM-DD", "YY-MM-DD", "Y-MM-DD", "YYY-MM-DD", "YYYY", "YYYY-MM", "MON", "DDD", "YY DDD",
+                  "YYYY DD", "DD MON YY", "Dy DD", "YYY DDD", "Y", "MONTH YYYY", "DD MM"]
+TIME_PICS = ["HH24:MI:SS.FF6", "HH24:MI:SS.FF", "HH24MISS", "HH12:MI:SS AM", "HH:MI:SS.FF3 P.M.", "AM HH12.MI.SS.FF9", "HH24:MI",
+             "HH24", "MI:SS", "SS.FF2", "HH12 a.m.", "FF", "HH24:MI:SS.FF7", "hh24-mi-ss", "HH24:MI:SS.FF1", "HH12:MI pm"]
+TS_PICS = ["YYYY-MM-DD HH24:MI:SS.FF6", "YYYY-MM-DDTHH24:MI:SS.FF", "DD/MM/YYYY HH12:MI:SS.FF7 PM", "Dy Mon DD HH24:MI:SS YYYY",
+           "YYYYMMDDHH24MISSFF6", "YYYY-DDD HH24.MI.SS,FF9", "HH24:MI:SS DD-MON-YYYY", "DD-MON-YY HH:MI A.M.", "YYYY-MM-DD",
+           "MM-DD HH24", "YYYY-MM-DD HH12 AM", "YYYY-MM-DD HH24:MI:SS.FF3", "Day, DD Month YYYY HH12:MI:SS.FF am", "HH24:MI",
+           "YY-MM-DD HH24:MI:SS", "YYYY/MM/DD HH24:MI:SS.FF8"]
+OD_PICS = ["YYYY-MM-DD HH24:MI:SS", "DD/MM/YYYY HH12:MI:SS PM", "YYYYMMDDHH24MISS", "Dy Mon DD HH24:MI:SS YYYY", "YYYY-DDD HH24.MI.SS",
+           "YYYY-MM-DD", "DD-MON-YY HH:MI A.M.", "MM-DD HH24", "HH24:MI", "YYYY-MM-DDTHH24:MI:SS"]
+YM_PICS = ["YYYY-MM", "YY-MM", "Y MM", "YYYY", "MM", "YYYY/MM", "YYYY MM", "YYY;MM"]
+DT_PICS = ["DD HH24:MI:SS.FF6", "DD HH24:MI:SS", "DD", "DD HH24", "HH24:MI:SS", "DD HH24:MI:SS.FF9", "DD HH24:MI:SS.FF7",
+           "DD,HH24;MI/SS\\FF", "DD HH24:MI:SS.FF3", "DD HH24:MI"]
+CLOCKS = [[2024, 2, 29, 13, 14, 15, 123456], [1999, 12, 31, 23, 59, 59, 999999], [2126, 7, 4, 0, 0, 0, 0], [1, 1, 31, 1, 2, 3, 4],
+          [9999, 12, 31, 12, 0, 0, 1], [305, 3, 30, 5, 6, 7, 8]]
+
+
+def spell_cases(v):
+    import pools
+    import random
+    rnd = random.Random(v.seed * 13 + 5)
+    dn = vlib.dayno
+    dates = [dn(2007, 4, 5), -719162, 2932896, dn(2024, 2, 29), dn(2024, 12, 31), dn(2000, 2, 29), dn(1900, 3, 1), dn(2023, 1, 31),
+             dn(2023, 11, 30), dn(1999, 12, 31), dn(1970, 1, 1), dn(1969, 12, 31), dn(9, 9, 9), dn(2096, 12, 31), dn(305, 3, 30)]
+    dates += [rnd.randint(-719162, 2932896) for _ in range(4 * scale_of(v))]
+    times = [[0, 0], [47289, 123456], [86399, 999999], [43200, 0], [43199, 999999], [3600, 500000], [45000, 7], [1, 999995],
+             [86399, 999994], [0, 999999]] + [[rnd.randint(0, 86399), rnd.randint(0, 999999)] for _ in range(3 * scale_of(v))]
+    yms = [0, 5, -5, 17, -17, 12, 2136000000, -2136000000, 2135999999, 119988, -13, 1200000] + [rnd.randint(-2136000000, 2136000000) for _ in range(3)]
+    day = 86400 * 10**6
+    dts = [0, 1, -1, 93784005006, -93784005006, day - 1, -(day - 1), 100000000 * day, -100000000 * day, 100000000 * day - 1,
+           31 * day + 5, 32 * day, 999999, 3599999999] + [rnd.randint(-10**17, 10**17) for _ in range(3)]
+    dts = [pools.us3(x) for x in dts]
+    cases = []
+    k = 0
+
+    def add(ty, pics, vals):
+        nonlocal k
+        for p in pics:
+            for val in vals:
+                cases.append((ty, list(p), val, CLOCKS[k % len(CLOCKS)]))
+                k += 1
+    add("D", DATE_PICS_FULL, dates)
+    add("D", DATE_PICS_PART, dates[:8] + dates[-2:])
+    add("T", TIME_PICS, times)
+    tss = [[d, t[0], t[1]] for d, t in zip(dates, times * 3)] + [[2932896, 86399, 999999], [-719162, 0, 0], [2932896, 86399, 999995]]
+    add("TS", TS_PICS, tss)
+    add("OD", OD_PICS, [[x[0], x[1], 0] for x in tss[:12]])
+    add("YM", YM_PICS, yms)
+    add("DT", DT_PICS, dts)
+    return cases
+
+
+def tla_val(x):
+    if isinstance(x, list):
+        return "<<" + ",".join(tla_val(y) for y in x) + ">>"
+    if isinstance(x, str):
+        return tla_str(x)
+    return str(x)
+
+
+def spellgen(v, tag, cases, chunks=12):
+    """Runs SpellGen.tla over the cases; returns de-duplicated GEN tuples."""
+    wd = vlib.workdir("%s_spellgen_%s" % (v.prop, tag))
+    parts = [cases[i::chunks] for i in range(chunks)]
+
+    def one(k):
+        if not parts[k]:
+            return None
+        body = "<<" + ",\n".join("<<%s,%s,%s,%s>>" % (tla_str(ty), tla_seq(pic), tla_val(val), tla_val(clk))
+                                 for ty, pic, val, clk in parts[k]) + ">>"
+        mod = vlib.mc_module(wd, "MCSpellGen%d" % k, "SpellGen", {"MCCases": body})
+        cfg = os.path.join(wd, "MC%d.cfg" % k)
+        with open(cfg, "w") as fh:
+            fh.write("SPECIFICATION Spec\nCONSTANT Cases <- MCCases\nINVARIANTS RoundTripSpec Emit\nCHECK_DEADLOCK FALSE\n")
+        res = vlib.tlc(mod, cfg, workers=1, xmx="3g", timeout=3000, cwd=wd, metadir=os.path.join(wd, "m%d" % k))
+        if res.errors:
+            m_ = res.out.find("Error:")
+            rt = res.out.find('"RTFAIL"')
+            raise ToolError("SpellGen(%s): spec invariant violated / error:\n%s\n%s" % (tag, res.out[m_:m_ + 1500], res.out[max(0, rt - 10):rt + 1500] if rt >= 0 else ""))
+        return res
+    gens = {}
+    for k, res in enumerate(vlib.parallel(one, list(range(chunks)))):
+        if res is None:
+            continue
+        v.add_tlc(res, "tlc -config MC.cfg MCSpellGen.tla (SpellGen over %d cases)" % len(cases))
+        for g in res.tagged("GEN"):
+            gens[(k, g[1], g[2])] = g
+    shutil.rmtree(wd, ignore_errors=True)
+    return list(gens.values())
+
+
+def replay_spellings(v, tag, gens, want):
+    """gens: GEN tuples <<"GEN", case, variant, ty, pic, text, clock, expect, lossless>>."""
+    plan = []
+    meta = []
+    for g in gens:
+        _, cs, var, ty, pic, text, clk, exp, loss = g
+        if not want(var, exp, loss, ty, pic):
+            continue
+        plan.append((ty + ".parse_at", [clk, text, pic], ("eq", exp) if exp[0] == 0 else ("err",)))
+        meta.append((cs, var))
+    bad = replay_plan(v, tag, plan)
+    v.cov["distinct_nontrivial"] += len({(p[0], repr(p[1][1:])) for p in plan})
+    v.cov["traces_validated_against_impl"] += 1
+    if plan:
+        v.sample({"generated_spelling": [plan[0][0], "".join(plan[0][1][1]), "".join(plan[0][1][2]), list(plan[0][2])]})
+    for op, args, r, exp in bad:
+        v.mismatch("SpellGen:" + op, {"op": op, "pic": "".join(args[2]), "text": "".join(args[1]), "clock": args[0]},
+                   {"observed": r, "expected": list(exp)})
+    return len(plan)
+
+
+N_STYLES, MAX_CUT = 14, 40
+
+
+@prop("C05")
+def c05(v):
+    v.cov["rule"] = ("SpellGen.tla (spec->impl): for every case (type, picture, value, clock) from pools of complete and partial "
+                     "pictures and boundary/random values of all six types, TLC writes the value in each lenient style (padded / "
+                     "unpadded / '+' numbers, extra blanks, any letter case, month names for MM, 1-9 fraction digits with half-up "
+                     "carry, every allowed omission of trailing time fields) with the value Denote says the text denotes, and every "
+                     "applicable single-component perturbation (month 0/13, day 0/32/last+1, hour 24, HH12 0/13, minute/second 60, "
+                     "DDD 0/366-in-common-year/367, contradicting weekday / day-of-year, sign on a date field, repeated / output-only "
+                     "/ inapplicable code, trailing garbage) expected to fail; each line is replayed on the crate under the injected "
+                     "clock. (impl->spec) format->parse round trips with YYYY-DDD etc. over the day window (EventTrace.tla). "
+                     "distinct_nontrivial = distinct (picture, text).")
+    cases = spell_cases(v)
+    gens = spellgen(v, "all", cases)
+    replay_spellings(v, "spell", gens, lambda var, exp, loss, ty, pic: True)
+    # every (year, day-of-year) of the window through the round trip: DDD must be read back as the same day
+    plan = []
+    days = []
+    for a, b in sweep_ranges(v, "full" if v.tier == "quick" else "all"):
+        days += list(range(a, b + 1))
+    for i, n in enumerate(days):
+        plan.append(("D.roundtrip", [n, list(["YYYY-DDD", "DDD/YYYY", "YYYY-MM-DD DDD", "YYYY MON DDD"][i % 4])]))
+    eventtrace(v, "doy", plan, {"result", "panic"}, shard=20000)
+
+
+@prop("C06")
+def c06(v):
+    import random
+    rnd = random.Random(v.seed + 6)
+    v.cov["rule"] = ("(A) SpellGen.tla RoundTripSpec: for every lossless picture (Spell.Lossless: 4-digit year, month+day or "
+                     "day-of-year, 24-hour or 12-hour+meridian, >=6 fraction digits, delimited variable-width fields) the renderer's "
+                     "text is the canonical spelling and denotes the value. (B) D/T/TS/OD/YM/DT.roundtrip events: format, parse the "
+                     "text with the same picture, format again - judged by Ops.tla: value and text reproduced, text = Render.tla; "
+                     "over all window days x rotating lossless date pictures, seconds of the day x time pictures, boundary/random "
+                     "timestamps, Oracle dates and intervals x picture pools.")
+    import pools
+    P = pools.Pools(v.seed, scale_of(v))
+    lossless_date = [p for p in DATE_PICS_FULL]
+    plan = []
+    days = []
+    for a, b in sweep_ranges(v, "full" if v.tier == "quick" else "all"):
+        days += list(range(a, b + 1))
+    for i, n in enumerate(days):
+        plan.append(("D.roundtrip", [n, list(lossless_date[i % len(lossless_date)])]))
+        if i % 5 == 0:
+            plan.append(("D.roundtrip", [n, list(lossless_date[(i // 5 + 7) % len(lossless_date)])]))
+    step = 20 if v.tier == "quick" else 1
+    for k, s_ in enumerate(range(0, 86400, step)):
+        us = [0, 1, 500000, 999999, (s_ * 7919) % 1000000][k % 5]
+        plan.append(("T.roundtrip", [[s_, us], list(TIME_PICS[k % len(TIME_PICS)])]))
+    for x in P.ts:
+        for p in rnd.sample(TS_PICS, 6):
+            plan.append(("TS.roundtrip", [x, list(p)]))
+    for x in P.od:
+        for p in rnd.sample(OD_PICS, 4):
+            plan.append(("OD.roundtrip", [x, list(p)]))
+    for x in P.ym:
+        for p in YM_PICS:
+            plan.append(("YM.roundtrip", [x, list(p)]))
+    for x in P.dt:
+        for p in DT_PICS:
+            plan.append(("DT.roundtrip", [x, list(p)]))
+    eventtrace(v, "roundtrip", plan, {"result", "panic"}, shard=8000)
+    cases = [c_ for c_ in spell_cases(v)]
+    gens = spellgen(v, "rt", cases[::3], chunks=8)       # RoundTripSpec is checked by TLC on these
+    replay_spellings(v, "canon", gens, lambda var, exp, loss, ty, pic: var == 1 and loss == 1)
+
+
+@prop("C18")
+def c18(v):
+    v.cov["rule"] = ("clock injected through the verif-hooks feature: (1) now()/TryFrom<Time> events for Date, Timestamp, OracleDate "
+                     "under every window day x times of day (and clocks outside 1..9999), judged by Ops.tla; (2) SpellGen.tla cases "
+                     "with partial pictures (no year / month / day, Y / YY / YYY, HH12 defaults) under six clocks incl. years whose "
+                     "hundreds digit is non-zero, Jan 31 and 9999-12-31 - expected value = Spell.Denote (fields completed from the "
+                     "clock); complete pictures replayed under different clocks must not depend on the clock.")
+    plan = []
+    days = []
+    for a, b in sweep_ranges(v, "full" if v.tier == "quick" else "all"):
+        days += list(range(a, b + 1))
+    tms = [[0, 0, 0, 0], [13, 14, 15, 123456], [23, 59, 59, 999999], [12, 0, 0, 1]]
+    for i, n in enumerate(days):
+        y, m, d = civil(n)
+        t = tms[i % 4]
+        clk = [y, m, d] + t
+        op = ["D.now_at", "TS.now_at", "OD.now_at"][i % 3]
+        plan.append((op, [clk]))
+        if i % 7 == 0:
+            plan.append(("TS.from_time_at", [clk, [(i * 37) % 86400, (i * 7919) % 1000000]]))
+            plan.append(("OD.from_time_at", [clk, [(i * 41) % 86400, (i * 7919) % 1000000]]))
+    for clk in [[0, 12, 31, 1, 1, 1, 1], [10000, 1, 1, 0, 0, 0, 0], [-5, 6, 6, 6, 6, 6, 6], [20000, 2, 2, 2, 2, 2, 2]]:
+        for op in ["D.now_at", "TS.now_at", "OD.now_at"]:
+            plan.append((op, [clk]))
+        plan.append(("TS.from_time_at", [clk, [5, 5]]))
+        plan.append(("OD.from_time_at", [clk, [5, 5]]))
+    eventtrace(v, "now", plan, {"result", "panic"}, shard=20000)
+    cases = spell_cases(v)
+    part = set(DATE_PICS_PART) | {"HH24:MI", "HH24", "MI:SS", "SS.FF2", "HH12 a.m.", "FF", "HH12:MI pm", "DD-MON-YY HH:MI A.M.",
+                                    "MM-DD HH24", "YYYY-MM-DD HH12 AM", "YY-MM-DD HH24:MI:SS", "YYYY-MM-DD"}
+    sel = [c_ for c_ in cases if "".join(c_[1]) in part]
+    # the same partial case under every clock
+    allc = []
+    for ty, pic, val, _ in sel[::2]:
+        for clk in CLOCKS:
+            allc.append((ty, pic, val, clk))
+    full = [c_ for c_ in cases if "".join(c_[1]) in ("YYYY-MM-DD", "YYYY-MM-DD HH24:MI:SS.FF6", "YYYY-DDD", "DD/MM/YYYY HH12:MI:SS.FF7 PM",
+                                                     "YYYY-MM-DD HH24:MI:SS")]
+    for ty, pic, val, _ in full[::3]:
+        for clk in CLOCKS[:4]:
+            allc.append((ty, pic, val, clk))
+    gens = spellgen(v, "clock", allc)
+    replay_spellings(v, "clock", gens, lambda var, exp, loss, ty, pic: var <= N_STYLES + MAX_CUT)
+
+
+FIXED_PICS = {"D": "YYYY-MM-DD", "T": "HH24:MI:SS.FF6", "TS": "YYYY-MM-DD HH24:MI:SS.FF6", "YM": "YYYY-MM",
+              "DT": "DD HH24:MI:SS.FF6", "OD": "YYYY-MM-DD HH24:MI:SS"}
+
+
+@prop("C15")
+def c15(v):
+    import pools
+    v.cov["rule"] = ("(impl->spec, EventTrace.tla) every type x window days / seconds / boundary+random pools: JSON text must be the "
+                     "fixed layout rendered by Render.tla, bincode payload the raw count and both decode back to the value; raw "
+                     "integers at the range limits +-1, integer extremes, sub-second Oracle payloads decoded from bincode must be "
+                     "rejected unless in range. (spec->impl, SpellGen.tla) lenient spellings of the fixed layouts decode to the "
+                     "denoted value and every perturbed / malformed string is rejected, through serde_json.")
+    P = pools.Pools(v.seed, scale_of(v) * 2)
+    plan = []
+    days = []
+    for a, b in sweep_ranges(v, "full" if v.tier == "quick" else "all"):
+        days += list(range(a, b + 1))
+    for i, n in enumerate(days):
+        plan.append(("D.json" if i % 2 else "D.bin", [n]))
+    step = 60 if v.tier == "quick" else 1
+    for k, s_ in enumerate(range(0, 86400, step)):
+        plan.append(("T.json" if k % 2 else "T.bin", [[s_, (s_ * 7919) % 1000000]]))
+    tys = [("D", P.dates), ("T", P.times), ("TS", P.ts), ("OD", P.od), ("YM", P.ym), ("DT", P.dt)]
+    for ty, pool in tys:
+        for x in pool:
+            plan.append((ty + ".json", [x]))
+            plan.append((ty + ".bin", [x]))
+    for raw in P.i32 + [pools.DATE_MIN - 1, pools.DATE_MAX + 1, pools.YM_MAX + 1, -pools.YM_MAX - 1, pools.YM_MAX, -pools.YM_MAX]:
+        plan.append(("D.unbin", [raw]))
+        plan.append(("YM.unbin", [raw]))
+    for raw in P.i64 + P.ts[:40] + P.dt[:40]:
+        for ty in ("T", "TS", "OD", "DT"):
+            plan.append((ty + ".unbin", [raw]))
+    eventtrace(v, "serde", plan, {"result", "range", "panic"}, shard=20000)
+    # human-readable decoding of lenient / perturbed strings (spec -> impl)
+    cases = []
+    for ty, pool in tys:
+        for x in pool[:14]:
+            cases.append((ty, list(FIXED_PICS[ty]), x, CLOCKS[0]))
+    gens = spellgen(v, "fixed", cases, chunks=8)
+    plan = []
+    for g in gens:
+        _, cs, var, ty, pic, text, clk, exp, loss = g
+        if "".join(pic) != FIXED_PICS[ty]:
+            continue          # perturbations that change the picture do not apply to a fixed layout
+        plan.append((ty + ".unjson", [text], ("eq", exp) if exp[0] == 0 else ("err",)))
+    bad = replay_plan(v, "unjson", plan)
+    v.cov["distinct_nontrivial"] += len({(p[0], repr(p[1])) for p in plan})
+    v.cov["traces_validated_against_impl"] += 1
+    for op, args, r, exp in bad:
+        v.mismatch("SpellGen:" + op, {"op": op, "text": "".join(args[0])}, {"observed": r, "expected": list(exp)})
+
+
+@prop("C03")
+def c03(v):
+    import pools
+    import random
+    rnd = random.Random(v.seed + 3)
+    v.cov["rule"] = ("no event may be a panic (Ops.tla has no panic outcome; EventTrace.tla NoPanicX), with overflow checks on (dev "
+                     "profile) and off (release): every operation x boundary pools incl. i32/u32/i64/f64 extremes, NaN, infinities; "
+                     "every TLC-generated string up to length 3 over the 40-symbol alphabet used as picture (try_new, format of all "
+                     "six types) and as input text against fixed pictures; SpellGen.tla texts incl. all perturbations; random symbol "
+                     "sequences up to 700 characters with blank runs of 250-600 and multi-byte characters as picture and as text. "
+                     "distinct_nontrivial = distinct (op, args).")
+    P = pools.Pools(v.seed, scale_of(v))
+    base = pools.plan_for(sorted(pools.SIG), P, cap=500 * scale_of(v), heavy_cap=300)
+    tys = [("D", P.dates), ("T", P.times), ("TS", P.ts), ("OD", P.od), ("YM", P.ym), ("DT", P.dt)]
+    # every value of every type through composite pictures: formatting + round trip
+    for ty, pool in tys:
+        for x in pool:
+            for p in (PIC_DATE2, PIC_TIME, PIC_FRAC, "DD HH24:MI:SS.FF", "YYYY-MM", "DD", "W WW D DDD"):
+                base.append((ty + ".roundtrip", [x, list(p)]))
+    for dcount in list(range(0, 400)) + [10**p + q for p in range(3, 9) for q in (-1, 0)]:
+        base.append(("DT.roundtrip", [pools.us3((-1 if dcount % 2 else 1) * (dcount * 86400 * 10**6 + (0 if dcount >= 10**8 else dcount))), list("DD HH24:MI:SS.FF6")]))
+    for profile in ("dev", "release"):
+        eventtrace(v, "ops_" + profile, base, {"panic"}, shard=8000, profile=profile)
+    # spec-generated strings as pictures and as texts
+    gens = picgen(v, "all", ALPHABET, 3 if v.tier == "quick" else 4, [[]], workers=max(4, vlib.NCPU - 4))
+    plan = []
+    fixed = list(FIXED_PICS.items()) + [("D", "Dy Mon DD YYYY DDD D"), ("T", "HH12:MI:SS.FF AM"), ("TS", "DAY MONTH DD YYYY HH:MI P.M."),
+                                         ("OD", "YY-MON-DD HH24"), ("YM", "Y MM"), ("DT", "DD HH24")]
+    vals = {"D": 13608, "T": [47289, 123456], "TS": PROBE_TS, "OD": [13608, 47289, 0], "YM": -17, "DT": [-3, 3600, 5]}
+    for i, g in enumerate(gens):
+        s_ = g[0]
+        ty, pic = fixed[i % len(fixed)]
+        plan.append(("F.try_new", [s_], ("nopanic",)))
+        plan.append((ty + ".parse", [s_, list(pic)], ("nopanic",)))
+        plan.append((ty + ".parse", [list("2007-04-05 13:08:09.123456"[: 3 + i % 24]), s_], ("nopanic",)))
+        plan.append((ty + ".format", [vals[ty], s_], ("nopanic",)))
+    # long random symbol sequences
+    sym = ALPHABET + ["@", "$", "Z", "x", "5", "7", "+", "'", '"', "\t"]
+    for i in range(1500 * scale_of(v)):
+        n = rnd.choice([0, 1, 5, 36, 37, 100, 255, 256, 257, 400, 700])
+        s_ = []
+        while len(s_) < n:
+            r_ = rnd.random()
+            if r_ < 0.15:
+                s_ += [" "] * rnd.choice([1, 2, 250, 256, 300, 600])
+            elif r_ < 0.55:
+                s_ += list(rnd.choice(TOKEN_SPELLINGS))
+            else:
+                s_.append(rnd.choice(sym))
+        ty, pic = fixed[i % len(fixed)]
+        plan.append(("F.try_new", [s_], ("nopanic",)))
+        plan.append((ty + ".parse", [s_, list(pic)], ("nopanic",)))
+        plan.append((ty + ".parse", [list("2007-04-05"), s_], ("nopanic",)))
+        plan.append((ty + ".parse", [s_, s_], ("nopanic",)))
+        plan.append((ty + ".format", [vals[ty], s_], ("nopanic",)))
+    # SpellGen texts (lenient and perturbed) under both profiles
+    sg = spellgen(v, "texts", spell_cases(v)[::2], chunks=10)
+    for g in sg:
+        plan.append((g[3] + ".parse_at", [g[6], g[5], g[4]], ("nopanic",)))
+    v.cov["distinct_nontrivial"] += len(plan)
+    for profile in ("dev", "release"):
+        bad = replay_plan(v, "strings_" + profile, plan, profile=profile)
+        v.cov["traces_validated_against_impl"] += 1
+        for op, args, r, exp in bad:
+            v.mismatch("Replay:" + op, {"op": op, "aspect": "panic", "profile": profile,
+                                        "a": ["".join(x) if isinstance(x, list) and x and isinstance(x[0], str) else x for x in args]},
+                       {"observed": r})
+    v.sample({"hostile_inputs": [[p[0], "".join(p[1][0])[:40] if isinstance(p[1][0], list) else p[1][0]] for p in plan[5000:5003]]})
 
 
 def replay(path):
